@@ -79,12 +79,14 @@ def plan(rng, idx, tier):
             if r.chance(0.4):
                 mid += 1
                 markers.append([j, [mid] if r.chance(0.7) else [mid, mid + 100]])
-        slots.append({'triples': triples, 'top': top, 'markers': markers})
+        meta = [['id', str(i)], ['snt', 'w' * (1 + i)]][:r.randrange(3)]
+        slots.append({'triples': triples, 'top': top, 'markers': markers, 'meta': meta})
     ops = []
     r = rng.sub('ops')
     for k in range(1 + r.randrange(10)):
         kind = r.weighted([('or', 3), ('ior', 3), ('sub', 3), ('isub', 3), ('set_top', 2), ('construct', 1)])
-        op = {'op': kind, 'i': r.randrange(4), 'j': r.randrange(4), 'dst': r.randrange(4)}
+        op = {'op': kind, 'i': r.randrange(4), 'j': r.randrange(4), 'dst': r.randrange(4),
+              'observe': r.chance(0.6)}
         if r.chance(0.15):
             op['j'] = op['i']
         if kind == 'set_top':
@@ -104,13 +106,16 @@ def colon(r):
 
 
 class Ref:
-    def __init__(self, triples, top, markers):
+    def __init__(self, triples, top, markers, meta=None):
         self.triples = [(s, colon(r), t) for s, r, t in triples]
         self.top = top
         self.markers = dict(markers)      # triple -> list of marker ids (values)
+        self.meta = [list(x) for x in (meta or [])]   # None = unconstrained (result of | or -)
 
     def copy(self):
-        return Ref([t for t in self.triples], self.top, {k: list(v) for k, v in self.markers.items()})
+        r = Ref([t for t in self.triples], self.top, {k: list(v) for k, v in self.markers.items()})
+        r.meta = None
+        return r
 
     def sources(self):
         return {t[0] for t in self.triples}
@@ -189,12 +194,16 @@ def build(slot):
             key = (s, colon(r), t)
             epidata[key] = mk_marker(ids)
             rmarkers[key] = list(ids)
-    g = Graph(triples, top=slot.get('top'), epidata=epidata)
-    return g, Ref(triples, slot.get('top'), rmarkers)
+    g = Graph(triples, top=slot.get('top'), epidata=epidata, metadata=dict(slot.get('meta') or []))
+    return g, Ref(triples, slot.get('top'), rmarkers, slot.get('meta'))
 
 
-def check_slot(name, g, ref, res, ctx, loose=False, unconstrained=()):
-    """Compare one heap slot with its reference and run the query invariants."""
+def check_slot(name, g, ref, res, ctx, loose=False, unconstrained=(), observe=True):
+    """Compare one heap slot with its reference and (when *observe*) run the query invariants."""
+    if ref.meta is not None and [list(x) for x in g.metadata.items()] != ref.meta:
+        res.violate('algebra', 'operand-metadata-changed', slot=name, expected=ref.meta,
+                    got=[list(x) for x in g.metadata.items()], **ctx)
+        return False
     got = list(g.triples)
     want = ref.triples
     if (dedup(got) != dedup(want)) if loose else (got != want):
@@ -212,6 +221,8 @@ def check_slot(name, g, ref, res, ctx, loose=False, unconstrained=()):
             res.violate('algebra', 'markers-differ', slot=name, triple=list(map(str, t)),
                         expected=ref.markers.get(t, []), got=gm, **ctx)
             return False
+    if not observe:
+        return True
     # ---- queries --------------------------------------------------------------------
     triples = got
     vs = {t[0] for t in triples} | ({g._top} if g._top is not None else set())
@@ -320,6 +331,7 @@ def execute(trace):
                     if hi is not heap[i]:
                         res.violate('algebra', 'inplace-returned-other-object', **ctx)
                         break
+                    nr.meta = refs[i].meta       # |= keeps the left operand's own metadata
                     refs[i] = nr
                     loose[i] = loose[i] or loose[j]
                     target_slot = i
@@ -346,6 +358,7 @@ def execute(trace):
                     if hi is not heap[i]:
                         res.violate('algebra', 'inplace-returned-other-object', **ctx)
                         break
+                    nr.meta = refs[i].meta
                     refs[i] = nr
                     target_slot = i
             elif name == 'set_top':
@@ -385,7 +398,8 @@ def execute(trace):
         # every slot, not only the result: operands and bystanders must be untouched
         for s, (g, r) in enumerate(zip(heap, refs)):
             if not check_slot(f'g{s}', g, r, res, ctx, loose=loose[s],
-                              unconstrained=unconstrained if s == target_slot else ()):
+                              unconstrained=unconstrained if s == target_slot else (),
+                              observe=op.get('observe', True)):
                 ok = False
                 break
         res.event(k, name, i, j, [digest.sha(digest.canon_graph(g, with_epidata=False)) for g in heap],
